@@ -1,9 +1,9 @@
 SPECIFICATION GSpec
 CONSTANTS
-  Mode = "lc"
-  Objs = {1}
-  Keys = {1,2}
-  D = 5
+  Mode = "all"
+  Objs = {1,2}
+  Keys = {1}
+  D = 6
   Outcomes = {"ok","err","panic"}
   Hooks = FALSE
 INVARIANTS PrintHist
